@@ -47,6 +47,7 @@ func runEngineProperty(t *testing.T, prop, test string, gen func(*rapid.T) Progr
 				fatalf("VIOLATION %s %s: %s", prop, f.Sig, detail)
 			} else {
 				rec.Label("crossfinding:"+strings.Join(f.Props, "+")+":"+f.Sig, 1)
+				rec.Cross(f.String()+"\ntrace:\n  "+strings.Join(tail(e.Trace, 40), "\n  "), p)
 			}
 		}
 	}
